@@ -56,6 +56,11 @@ pub fn check(sc: &Scenario, ex: &Exec, a: &Analysis) -> Vec<Violation> {
         if ex.done.is_none() {
             v.push(viol(P, "d", "oversized-head-connection-open", "connection still open after an oversized head".into()));
         }
+        // refused once: every further error response is queued in the write buffer of a
+        // connection whose peer may never read
+        if finals.len() > 1 {
+            v.push(viol(P, "d", "oversized-head-refused-more-than-once", format!("{} responses were written for one oversized head (statuses {:?})", finals.len(), finals.iter().map(|r| r.status).collect::<Vec<_>>())));
+        }
     }
     v
 }
